@@ -2,7 +2,7 @@
 import collections
 
 from core import Case, call_impl, psec
-from props.tr31util import VERS, rb, rand_blocks, make_header, wrap_case, unwrap_case, tr31
+from props.tr31util import Session, VERS, rb, rand_blocks, make_header, wrap_case, unwrap_case, tr31
 
 OBLIGATIONS = ["Psec.Props.C13.effective_mask", "Psec.Props.C13.maskedLen_const", "Psec.Props.C13.wrap_length", "Psec.Props.C13.length_masked", "Psec.Props.C13.encrypted_bounds", "Psec.Props.C13.long_keys_whole"]
 TRUSTED_BASE = ["Lean 4.33 kernel", "correspondence harness and compiled driver"]
@@ -64,3 +64,30 @@ def generate(rng, tier, seed):
                         if len(ls) > 1:
                             c.fail(f"key block length depends on the key length within the mask {m0}: lengths {sorted(ls)}")
                     yield c
+    # one KeyBlock object wrapping keys of many lengths in arbitrary order with header and mask unchanged: the length of every
+    # block depends on (effective mask) only, not on what the object wrapped before
+    for ver, (bs, ksizes, ml) in VERS.items():
+        for alg in "TDA0H":
+            for mask in ([None, 16, 24] if tier == "quick" else [None, 0, 8, 16, 24, 32, 40]):
+                c = Case(f"{ver}:{alg}:one-object", {"mask": mask})
+                c.key = (ver, alg, mask, "one-object")
+                se = Session(c, rb(rng, ksizes[-1]), make_header(rng, ver, [("KS", "1234")], alg=alg, reserved="00"))
+                order = [40, 16, 48, 8, 24, 33, 0, 32, 64, 5] if tier == "quick" else list(range(0, 66, 3))
+                rng.shuffle(order)
+                lengths = collections.defaultdict(set)
+                for kl in order:
+                    w = se.wrap(rb(rng, kl), mask)
+                    if not w.ok:
+                        c.fail(f"wrap raised {w.err} for key length {kl}")
+                        continue
+                    m, m0 = eff_mask(alg, mask, kl), eff_mask(alg, mask, 0)
+                    hl = tr31.Header().load(w.value)
+                    e = (len(w.value) - hl - 2 * ml) // 2
+                    if not (2 + m < e <= 2 + m + bs and e % bs == 0):
+                        c.fail(f"encrypted section holds {e} bytes for effective mask {m} (key {kl}) on a reused object")
+                    if kl <= m0:
+                        lengths[m0].add(len(w.value))
+                for m0, ls in lengths.items():
+                    if len(ls) > 1:
+                        c.fail(f"on one object the key block length depends on earlier wraps / the key length within the mask {m0}: lengths {sorted(ls)}")
+                yield c
